@@ -100,6 +100,8 @@ def random_case(rng, tier):
     else:
         schedule = [{'act': 'kill', 'at': rng.randint(0, ticks + 1), 'msg': 'kk'}]
     case = {'program': program, 'schedule': schedule, 'scenario': scenario, 'opts': opts}
+    if rng.random() < 0.25:
+        case['bare'] = True  # the exception is raised without arguments (`raise ValueError`)
     if rng.random() < 0.2:
         case['hostile'] = True  # an exception raised inside a listener cannot be formatted (its __str__ raises)
     return case
@@ -140,6 +142,7 @@ def _execute(case, fault):
     # (only for faults inside listeners, which the process swallows and logs: for an exception that becomes the outcome of
     # the process, being printable is part of being a usable outcome, and plumpy formats it in several places)
     engine.world.hostile = bool(case.get('hostile')) and fault is not None and str(fault[0]).startswith('listener:')
+    engine.world.bare_faults = bool(case.get('bare'))
     started = engine.start()
     drive = None
     if started:
